@@ -27,7 +27,7 @@ def cases(tier, rng):
     #  other-refused: another application asks for a channel the server does not offer while a transfer is under way
     #  raw-idle: a stream that was opened and has not sent its first octet yet (a peer of the harness's own making, socket carriers)
     for c in (CARRIERS + ["unix", "wss", "tcp+tls"] if thorough else ["tcp", "ws", "kcp"]):
-        for sc in ("stall-up", "stall-down", "other-refused"):
+        for sc in ("stall-up", "stall-down", "other-refused", "other-fails-late"):
             if not thorough and c != "tcp" and sc != "stall-up":
                 continue
             line = "c02 %s 3 %s" % (c, sc)
@@ -44,7 +44,7 @@ def oracle(case, impl):
     if not p or p[0] in ("panic", "died", "timeout", "harness-error", "setup"):
         return [("crash;carrier=" + t["carrier"], "scenario crashed: " + impl[:150])]
     if "first-half" in p or "second-half" in p:
-        return [("disturbed-by-refused-channel", "a transfer was cut when another application asked for a channel the server does not offer: " + impl[:100])]
+        return [("disturbed-by-other-connection;scenario=" + t["sc"], "a transfer was cut when another logical connection was refused or failed (%s): %s" % (t["sc"], impl[:100]))]
     if p[:2] != ["open1", "ok"]:
         return [("no-connection;carrier=" + t["carrier"], "the first logical connection could not be opened")]
     out = []
